@@ -1,6 +1,7 @@
 (* C03, the fragment on which parse-after-write is PROVED for trees of any size and depth:
-   one-line plain paragraphs, block quotes and single-item lists (any marker, padding 1-4),
-   nested arbitrarily, sibling blocks separated by one blank line.  This file holds the
+   one-line plain paragraphs, fenced code blocks (fence of ` or ~, any length >= 3, any content
+   lines), block quotes and single-item lists (any marker, padding 1-4), nested arbitrarily,
+   sibling blocks separated by one blank line.  This file holds the
    tree grammar, its spelling as structured lines and the pre-token tree / HTML expected
    from it.  Nothing here uses the tokenizer. *)
 From Coq Require Import ZArith List Bool Lia.
@@ -10,6 +11,7 @@ Local Open Scope Z_scope.
 
 Inductive ftree :=
 | FPara (c : Z) (body : str)
+| FFence (ch : Z) (n : nat) (content : list sline)      (* fence ch^n, the content lines, the same fence *)
 | FQuote (ts : list ftree)
 | FItem (mk : marker) (pad : nat) (ts : list ftree).
 
@@ -37,6 +39,7 @@ Definition item_lines (mk : marker) (pad : nat) (inner : list sline) : list slin
 Fixpoint spell (t : ftree) : list sline :=
   match t with
   | FPara c body => [SLine 0 c body]
+  | FFence ch n content => SLine 0 ch (repeat ch (n - 1)) :: content ++ [SLine 0 ch (repeat ch (n - 1))]
   | FQuote ts => map quote_s (join_blank (map spell ts))
   | FItem mk pad ts => item_lines mk pad (join_blank (map spell ts))
   end.
@@ -54,6 +57,7 @@ Fixpoint pre_of (ln : Z) (t : ftree) : pre :=
                 end) in
   match t with
   | FPara c body => PParagraph ln [c :: body ++ [10]]
+  | FFence ch n content => PCodeFence ln (map render_line content) 0 (repeat ch n) [] []
   | FQuote ts => PQuote ln (seq ln ts)
   | FItem mk pad ts =>
     PList ln [PItem ln (seq ln ts) (1 <? Z.of_nat (length ts)) 0 (Z.of_nat (length (marker_str mk) + pad)) (marker_str mk)]
@@ -67,7 +71,7 @@ Fixpoint pre_seq (ln : Z) (ts : list ftree) : list pre :=
 (* Paragraph.parse_setext after the block *)
 Fixpoint st_after (st : pstate) (t : ftree) : pstate :=
   match t with
-  | FPara _ _ => st
+  | FPara _ _ | FFence _ _ _ => st
   | FQuote _ => mkPs true
   | FItem _ _ ts => fold_left st_after ts st
   end.
@@ -75,6 +79,6 @@ Definition st_seq (st : pstate) (ts : list ftree) : pstate := fold_left st_after
 
 Fixpoint depth (t : ftree) : nat :=
   match t with
-  | FPara _ _ => 0%nat
+  | FPara _ _ | FFence _ _ _ => 0%nat
   | FQuote ts | FItem _ _ ts => S (fold_right (fun t m => Nat.max (depth t) m) 0%nat ts)
   end.
